@@ -9,6 +9,7 @@ CONSTANTS
   MaxLen = 2
   MaxText = 3
   Rtl = 0
+  NFeat = 0
   Ops <- OpsSub
   Emit = TRUE
 INVARIANTS TypeOK StreamOK EmitDone
